@@ -110,8 +110,11 @@ type Resp struct {
 	wroteEarly bool
 }
 
+// recorder is a ResponseWriter with net/http's semantics: the header map is sent (frozen) by
+// WriteHeader or by the first Write; what a handler sets afterwards is lost.
 type recorder struct {
 	h      http.Header
+	sent   http.Header
 	status int
 	body   bytes.Buffer
 }
@@ -120,13 +123,20 @@ func (w *recorder) Header() http.Header { return w.h }
 func (w *recorder) WriteHeader(s int) {
 	if w.status == 0 {
 		w.status = s
+		w.sent = w.h.Clone()
 	}
 }
 func (w *recorder) Write(p []byte) (int, error) {
 	if w.status == 0 {
-		w.status = 200
+		w.WriteHeader(200)
 	}
 	return w.body.Write(p)
+}
+func (w *recorder) sentHeader() http.Header {
+	if w.sent != nil {
+		return w.sent
+	}
+	return w.h
 }
 
 // Pending is a request running in its own goroutine.
@@ -298,11 +308,11 @@ func (d *Driver) handle(pathAndQuery string) (resp Resp) {
 		if r := recover(); r != nil {
 			buf := make([]byte, 4096)
 			n := runtime.Stack(buf, false)
-			resp = Resp{Status: w.status, Header: w.h, Body: w.body.Bytes(), Panic: fmt.Sprintf("%v\n%s", r, buf[:n])}
+			resp = Resp{Status: w.status, Header: w.sentHeader(), Body: w.body.Bytes(), Panic: fmt.Sprintf("%v\n%s", r, buf[:n])}
 		}
 	}()
 	d.M.Handle(w, &http.Request{Method: "GET", URL: u})
-	return Resp{Status: w.status, Header: w.h, Body: w.body.Bytes()}
+	return Resp{Status: w.status, Header: w.sentHeader(), Body: w.body.Bytes()}
 }
 
 // Go issues a request in its own goroutine.
@@ -314,6 +324,56 @@ func (d *Driver) Go(pathAndQuery string) *Pending {
 		close(p.done)
 	}()
 	return p
+}
+
+// SlowGate controls a response writer whose Write blocks: a client that reads slowly.
+type SlowGate struct {
+	Started chan struct{} // closed when the handler first writes body bytes
+	release chan struct{}
+	once    sync.Once
+	rel     sync.Once
+}
+
+// Release lets the blocked (and every later) Write proceed.
+func (g *SlowGate) Release() { g.rel.Do(func() { close(g.release) }) }
+
+type slowRecorder struct {
+	recorder
+	gate *SlowGate
+}
+
+func (w *slowRecorder) Write(p []byte) (int, error) {
+	w.gate.once.Do(func() { close(w.gate.Started) })
+	<-w.gate.release
+	return w.recorder.Write(p)
+}
+
+// GoSlow issues a request whose response body is read by a slow client: the handler's first
+// Write blocks until the gate is released.
+func (d *Driver) GoSlow(pathAndQuery string) (*Pending, *SlowGate) {
+	g := &SlowGate{Started: make(chan struct{}), release: make(chan struct{})}
+	p := &Pending{Path: pathAndQuery, done: make(chan struct{}), gidC: make(chan int64, 1)}
+	go func() {
+		p.gidC <- CurrentGoroutineID()
+		u, err := url.Parse("http://localhost/" + pathAndQuery)
+		if err != nil {
+			p.resp = Resp{Status: -1, Panic: "harness: bad url"}
+			close(p.done)
+			return
+		}
+		w := &slowRecorder{recorder: recorder{h: make(http.Header)}, gate: g}
+		func() {
+			defer func() {
+				if r := recover(); r != nil {
+					p.resp = Resp{Status: w.status, Panic: fmt.Sprint(r)}
+				}
+			}()
+			d.M.Handle(w, &http.Request{Method: "GET", URL: u})
+			p.resp = Resp{Status: w.status, Header: w.sentHeader(), Body: w.body.Bytes()}
+		}()
+		close(p.done)
+	}()
+	return p, g
 }
 
 // GetDirect issues a request on the calling goroutine. Only for requests that cannot block
